@@ -328,6 +328,56 @@ impl<T> Deque<T> {
     }
 }
 
+// Verification hook: walks the list and reports its shape without modifying it.
+#[cfg(mini_moka_verif)]
+impl<T> Deque<T> {
+    /// Returns (region, len, node addresses from head to tail, cursor, problem).
+    #[allow(clippy::type_complexity)]
+    pub(crate) fn verif_walk(
+        &self,
+    ) -> (
+        usize,
+        usize,
+        Vec<usize>,
+        Option<Option<usize>>,
+        Option<String>,
+    ) {
+        let mut addrs = Vec::new();
+        let mut problem = None;
+        let mut prev: Option<NonNull<DeqNode<T>>> = None;
+        let mut cur = self.head;
+        // A corrupt list could be cyclic; never follow more links than `len` allows.
+        let limit = self.len + 1;
+        while let Some(node) = cur {
+            if addrs.len() >= limit {
+                problem = Some(format!("more than len={} nodes reachable from head", self.len));
+                break;
+            }
+            addrs.push(node.as_ptr() as usize);
+            let n = unsafe { node.as_ref() };
+            if n.prev != prev {
+                problem = Some(format!("prev link of node #{} is wrong", addrs.len() - 1));
+                break;
+            }
+            prev = cur;
+            cur = n.next;
+        }
+        if problem.is_none() {
+            if prev != self.tail {
+                problem = Some("tail does not point at the last node".to_string());
+            } else if addrs.len() != self.len {
+                problem = Some(format!("len={} but {} nodes linked", self.len, addrs.len()));
+            }
+        }
+        let cursor = match &self.cursor {
+            None => None,
+            Some(DeqCursor::Done) => Some(None),
+            Some(DeqCursor::Node(n)) => Some(Some(n.as_ptr() as usize)),
+        };
+        (self.region as usize, self.len, addrs, cursor, problem)
+    }
+}
+
 #[cfg(test)]
 mod tests {
     use super::{CacheRegion::MainProbation, DeqNode, Deque};
